@@ -8,7 +8,7 @@ package parser
 // VerifScanTok is one token of the scanner that SplitStatementToPieces drives
 // (Scanner.scan, default SQL mode): its class and the offset it reports.
 type VerifScanTok struct {
-	Class  string // "semi", "eof" or "other"
+	Class  string // "semi", "isemi" (a ';' scanned inside /*! */ or /*+ */), "eof" or "other"
 	Offset int
 }
 
@@ -21,7 +21,11 @@ func VerifScanTrace(sql string, limit int) (toks []VerifScanTok, hasErr bool, tr
 		tok, pos, _ := s.scan()
 		switch tok {
 		case ';':
-			toks = append(toks, VerifScanTok{"semi", pos.Offset})
+			if s.specialComment != nil {
+				toks = append(toks, VerifScanTok{"isemi", pos.Offset})
+			} else {
+				toks = append(toks, VerifScanTok{"semi", pos.Offset})
+			}
 		case 0, eofChar:
 			toks = append(toks, VerifScanTok{"eof", pos.Offset})
 			return toks, len(s.errs) > 0, false
